@@ -158,6 +158,51 @@ Proof.
   destruct (ge1 v1) eqn:B1; [apply ge1_spec in B1; [lra|exact F1]|].
   apply mid_mono; auto; lra.
 Qed.
+
+(* ---------- accuracy: the code is within 1/2 + 2^(E-24) of x*m, where 2^E bounds m + 1/2 ---------- *)
+Variable E : Z.
+Hypothesis HE : (1 <= E <= 17)%Z /\ IZR m + /2 <= bpow radix2 E.
+
+Lemma rnd_err x : 0 <= x <= bpow radix2 E -> Rabs (rnd x - x) <= /2 * bpow radix2 (E - 24).
+Proof.
+  intros [H0 H1]. destruct (Req_dec x 0) as [->|Hnz].
+  - rewrite round_0 by auto with typeclass_instances. rewrite Rminus_0_r, Rabs_R0.
+    pose proof (bpow_ge_0 radix2 (E - 24)). lra.
+  - destruct (Req_dec x (bpow radix2 E)) as [->|Hne].
+    + rewrite round_generic; auto with typeclass_instances.
+      * rewrite Rminus_diag_eq, Rabs_R0 by reflexivity. pose proof (bpow_ge_0 radix2 (E - 24)). lra.
+      * apply generic_format_bpow. unfold SpecFloat.fexp, SpecFloat.emin, prec, emax. destruct HE as [[? ?] _]. lia.
+    + eapply Rle_trans; [apply error_le_half_ulp; auto with typeclass_instances|].
+      apply Rmult_le_compat_l; [lra|]. rewrite ulp_neq_0 by exact Hnz. apply bpow_le. unfold cexp.
+      assert (Hmag2 : (mag radix2 x <= E)%Z).
+      { apply mag_le_bpow; [exact Hnz|]. rewrite Rabs_pos_eq by exact H0. lra. }
+      unfold SpecFloat.fexp, SpecFloat.emin, prec, emax. destruct HE as [[? ?] _]. lia.
+Qed.
+
+Lemma mid_accuracy v : is_finite v = true -> 0 <= B2R v <= 1 ->
+  Rabs (IZR (mid v) - B2R v * IZR m) <= /2 + bpow radix2 (E - 24).
+Proof.
+  intros Fv Hv. destruct (mid_real v Fv Hv) as [He [Hb0 Hb1]]. destruct (mult_real v Fv Hv) as (_ & _ & Hy0 & Hy1).
+  destruct HE as [HE1 HE2]. pose proof IZR_m as Hmm.
+  set (x := B2R v * IZR m) in *. set (y1 := rnd x) in *. set (y2 := rnd (y1 + /2)) in *.
+  assert (E1 : Rabs (y1 - x) <= /2 * bpow radix2 (E - 24)) by (apply rnd_err; unfold x; nra).
+  assert (E2 : Rabs (y2 - (y1 + /2)) <= /2 * bpow radix2 (E - 24)) by (apply rnd_err; lra).
+  rewrite trunc_val in He. apply eq_IZR in He.
+  assert (Ht : IZR (mid v) <= y2 < IZR (mid v) + 1).
+  { rewrite He. rewrite Ztrunc_floor by exact Hb0. split; [apply Zfloor_lb|apply Zfloor_ub]. }
+  apply Rabs_le_inv in E1. apply Rabs_le_inv in E2. apply Rabs_le. lra.
+Qed.
+
+Theorem quant_accuracy v : is_finite v = true -> 0 <= B2R v <= 1 ->
+  Rabs (IZR (quant v) - B2R v * IZR m) <= /2 + bpow radix2 (E - 24).
+Proof.
+  intros Fv Hv. pose proof (bpow_ge_0 radix2 (E - 24)) as Hp. unfold quant.
+  destruct (le0 v) eqn:A.
+  - apply le0_spec in A; [|exact Fv]. replace (B2R v) with 0 by lra. rewrite Rmult_0_l, Rminus_0_r, Rabs_R0. lra.
+  - destruct (ge1 v) eqn:B.
+    + apply ge1_spec in B; [|exact Fv]. replace (B2R v) with 1 by lra. rewrite Rmult_1_l, Rminus_diag_eq, Rabs_R0 by reflexivity. lra.
+    + apply mid_accuracy; assumption.
+Qed.
 End Q.
 
 
@@ -212,6 +257,11 @@ Proof.
   - apply (le0_spec Kzero Kzero_ok v F) in E. lra.
   - rewrite (proj2 (ge1_spec Kone Kone_ok v F) H). reflexivity.
 Qed.
+(* the code is within 1/2 + 2^(E-24) of v*m for every finite v in [0,1], where 2^E >= m + 1/2 *)
+Theorem quant_close E v : (1 <= E <= 17)%Z /\ IZR m + /2 <= bpow radix2 E ->
+  BinarySingleNaN.is_finite v = true -> 0 <= BinarySingleNaN.B2R v <= 1 ->
+  Rabs (IZR (q v) - BinarySingleNaN.B2R v * IZR m) <= /2 + bpow radix2 (E - 24).
+Proof. intros HE. apply (quant_accuracy m M Khalf Kzero Kone Hm HM Khalf_ok Kzero_ok Kone_ok E HE). Qed.
 Theorem quant_monotone v1 v2 : BinarySingleNaN.is_finite v1 = true -> BinarySingleNaN.is_finite v2 = true ->
   BinarySingleNaN.B2R v1 <= BinarySingleNaN.B2R v2 -> (q v1 <= q v2)%Z.
 Proof. apply (quant_mono m M Khalf Kzero Kone Hm HM Khalf_ok Kzero_ok Kone_ok). Qed.
